@@ -111,6 +111,21 @@ func main() {
 		res := bk.Run(sc, true)
 		record(run, sc, &res)
 	}
+	// many subscribers, a dispatch parked on its first send, most unsubscribe, all drain
+	for i, n := 0, run.Pick(12, 200); i < n && unexpected < 3; i++ {
+		r := run.Rand.Fork()
+		sc := bk.GenMassUnsub(r, next(), []string{"queue", "deque", "chan"}[i%3], []int{1, 1, 2}[i%3])
+		res := execute(sc)
+		record(run, sc, &res)
+	}
+	// API calls with dead / expiring contexts between ordinary traffic
+	for i, n := 0, run.Pick(30, 400); i < n && unexpected < 3; i++ {
+		r := run.Rand.Fork()
+		c := bk.GenCfg(r, bk.Backends)
+		sc := bk.GenDeadCalls(r, next(), c)
+		res := execute(sc)
+		record(run, sc, &res)
+	}
 	// the queue/deque behind the broker is closed right after the last message,
 	// while the workers are parked: only published values may ever arrive
 	for i, n := 0, run.Pick(48, 600); i < n && unexpected < 3; i++ {
